@@ -626,7 +626,7 @@ impl Property for C16 {
     }
     fn rule(&self) -> String {
         "each case = a tree of #if/#elif/#else chains to depth 4 whose conditions read global and hierarchical (cfg.dbg) constants - declared before, after, or only inside other arms, or through a chain of up to five constants each defined by the next one - through \
-         !, comparisons, && and ||, plus rare undecidable (label) and non-boolean conditions; arms hold marker bytes, global labels (and data reading them), constants and nested chains; one case in six has a dispatch chain `#if sel7 == 0 ... #elif sel7 == k` of 6-18 arms with the selected arm anywhere; one in five keeps the content of some arms in #include'd files; one in six includes a #once file from inside an arm and again at the top level (there an implementation may refuse the combination with a diagnostic that names #once, but never mis-assemble it); x 0-4 \
+         !, comparisons, && and ||, plus rare undecidable (label) and non-boolean conditions; arms hold marker bytes, global labels (and data reading them), constants and nested chains; one case in six has a dispatch chain `#if sel7 == 0 ... #elif sel7 == k` of 6-18 arms with the selected arm anywhere; one in five keeps the content of some arms in #include'd files; in the dotted mode half of the cases declare nested constants at the top level of which one is defined through a relative reference to the other (`.q3 = .q1 + 0`, sometimes beside a global `q1` of another value) and conditions read them; one in six includes a #once file from inside an arm and again at the top level (there an implementation may refuse the combination with a diagnostic that names #once, but never mis-assemble it); x 0-4 \
          defines (true/false/small/negative/hex values; names of constants, hierarchical names, names of labels and names of nothing - a define must name a declared CONSTANT), passed both as driver symbol definitions to the library and as \
          -dN=V / -d N=V / --define N=V to the driver (one case in three with further output groups behind the group that carries the defines). Oracle R-COND: the reference computes the least fixed point (resolve address-free constants with overrides, splice every chain whose next \
          condition is decided), rejects leftover conditions, unused defines and duplicates, and hands the one live world to the reference assembler; bits and symbols must match, a rejected \
